@@ -189,7 +189,6 @@ def o_reject(sim, op, spec, out):
         if not M.foreign_cat_unit(spec["category"], spec["unit"]):
             sim.count("precondition_lapsed")
             return
-    sim.fired("F1.rejected_call")
     ok = out[0] == "exc" and isinstance(out[1], M.loud_classes())
     sig = {"why": why, "api": _api(op), "got": out[0] if out[0] != "exc" else type(out[1]).__name__}
     if why == "pair" and not ok:
@@ -338,7 +337,6 @@ def o_curve_set(sim, op, spec, out):
     img, dom = cv.GetImage(), cv.GetDomain()
     bad = len(new.GetValues()) != len((pre_dom if side == "image" else pre_img).GetValues())
     if bad:
-        sim.fired("F1.rejected_call")
         if not sim.check(out[0] == "exc" and isinstance(out[1], ValueError), sid, {"case": "mismatch_accepted", "side": side}, op["i"], "setter with wrong length: %s %r" % (out[0], out[1])):
             return
     if out[0] == "exc":
